@@ -10,6 +10,7 @@ import AgeModel.Extracted.ExecSites
 import AgeModel.Extracted.Consts
 import AgeModel.SpecConsts
 import Proofs.GoTieMisc
+import Proofs.GoTieCli
 namespace AgeModel
 namespace Tie.C17
 
@@ -61,6 +62,39 @@ theorem allowlist_no_separator :
 theorem validPluginName_tie (n : Bytes) :
     Extracted.plugin_validPluginName n = .ok (Keys.validPluginName n) :=
   GoTie.validPluginName_tie n
+
+/-! The command line's routing (cmd/age/parse.go), translated on every run: for every argument,
+which constructor it is handed to. A plugin client is constructed exactly for `-r` arguments that
+start with "age1" and contain a second "1", and for identity lines that start with "AGE-PLUGIN-";
+handed a plugin constructor that FAULTS when called, `parseRecipient` still returns normally for
+every other argument (`cli_native_no_plugin`). -/
+
+theorem cli_parseRecipient_tie {ρ υ : Type} (NR : Bytes → υ → Go.M (ρ × Option Go.Err)) (ui : υ)
+    (PX PS : Bytes → Go.M (ρ × Option Go.Err)) (nilρ : ρ) (arg : Bytes) :
+    Extracted.main_parseRecipient NR ui PX PS nilρ arg =
+      if (Keys.hasPrefix arg Keys.pfxAge1 && decide (Keys.countByte arg 0x31 > 1)) = true then NR arg ui
+      else if Keys.hasPrefix arg Keys.pfxAge1 = true then PX arg
+      else if Keys.hasPrefix arg Keys.pfxSsh = true then PS arg
+      else if Keys.hasPrefix arg Keys.pfxGithub = true then .ok (nilρ, some ⟨"main.gitHubRecipientError", 0, []⟩)
+      else .ok (nilρ, some ⟨"main.parseRecipient", 0, []⟩) :=
+  GoTie.cli_parseRecipient_tie NR ui PX PS nilρ arg
+
+theorem cli_parseIdentity_tie {ι υ : Type} (NI : Bytes → υ → Go.M (ι × Option Go.Err)) (ui : υ)
+    (PX : Bytes → Go.M (ι × Option Go.Err)) (nilι : ι) (s : Bytes) :
+    Extracted.main_parseIdentity NI ui PX nilι s =
+      if Keys.hasPrefix s Keys.pfxPlugin = true then NI s ui
+      else if Keys.hasPrefix s Keys.pfxSecret1 = true then PX s
+      else .ok (nilι, some ⟨"main.parseIdentity", 0, []⟩) :=
+  GoTie.cli_parseIdentity_tie NI ui PX nilι s
+
+theorem cli_native_no_plugin {ρ υ : Type} (ui : υ) (PX PS : Bytes → Go.M (ρ × Option Go.Err)) (nilρ : ρ) (arg : Bytes)
+    (h : (Keys.hasPrefix arg Keys.pfxAge1 && decide (Keys.countByte arg 0x31 > 1)) = false) :
+    Extracted.main_parseRecipient (fun _ _ => .error (.panic 99)) ui PX PS nilρ arg =
+      if Keys.hasPrefix arg Keys.pfxAge1 = true then PX arg
+      else if Keys.hasPrefix arg Keys.pfxSsh = true then PS arg
+      else if Keys.hasPrefix arg Keys.pfxGithub = true then .ok (nilρ, some ⟨"main.gitHubRecipientError", 0, []⟩)
+      else .ok (nilρ, some ⟨"main.parseRecipient", 0, []⟩) :=
+  GoTie.cli_native_no_plugin ui PX PS nilρ arg h
 
 end Tie.C17
 end AgeModel
